@@ -12,8 +12,10 @@ package simrt
 
 import (
 	"cmp"
+	"os"
 	"runtime"
 	"slices"
+	"strconv"
 	"unsafe"
 )
 
@@ -417,3 +419,19 @@ func NewTimerOutsideRun(ts *TimerSpec) {
 
 // Unmanaged reports whether this process has no scheduler at all.
 func Unmanaged() bool { return unmanaged }
+
+// SimProcs is what runtime.GOMAXPROCS(0) / runtime.NumCPU() report to the
+// library under simulation: a per-process configuration knob chosen by the
+// driver (VERIF_SIM_PROCS), independent of the real parallelism of the worker.
+var SimProcs = func() int {
+	if v, err := strconv.Atoi(os.Getenv("VERIF_SIM_PROCS")); err == nil && v > 0 {
+		return v
+	}
+	return 8
+}()
+
+// GOMAXPROCS replaces runtime.GOMAXPROCS in the instrumented copy (setting it is ignored).
+func GOMAXPROCS(n int) int { return SimProcs }
+
+// NumCPU replaces runtime.NumCPU.
+func NumCPU() int { return SimProcs }
